@@ -129,3 +129,36 @@ theorem default_httperror_keeps_status
   simp [handle, hf, hbeh, reset, composeError, body]
 
 end Eh
+
+/-! ### what a handler assigned before raising is discarded (fix 07d5278) -/
+namespace Eh
+
+/-- An HTTPError raised by the handler is rendered exactly as if the handler had assigned nothing first. -/
+theorem draft_then_http_eq_http (reg : Reg) (beh : Handler → Beh) (mro : List Cls) (rs : Nat) (r : Resp)
+    (h : Handler) (t d m : Option Nat) (s : Nat) (hf : find reg mro = some h) (hb : beh h = .draftRaisesHttp t d m s) :
+    handle reg beh mro rs r = some (composeError (reset r) s) := by
+  simp [handle, hf, hb, reset, composeError]
+
+theorem draft_then_status_eq_status (reg : Reg) (beh : Handler → Beh) (mro : List Cls) (rs : Nat) (r : Resp)
+    (h : Handler) (t d m : Option Nat) (s : Nat) (hf : find reg mro = some h) (hb : beh h = .draftRaisesStatus t d m s) :
+    handle reg beh mro rs r = some (composeStatus (reset r) s) := by
+  simp [handle, hf, hb, reset, composeStatus]
+
+/-- The body sent for a handler-raised HTTPError is the serialized error, whatever the handler (or anything before it) had assigned. -/
+theorem draft_http_body_is_error (reg : Reg) (beh : Handler → Beh) (mro : List Cls) (rs : Nat) (r : Resp)
+    (h : Handler) (t d m : Option Nat) (s : Nat) (hf : find reg mro = some h) (hb : beh h = .draftRaisesHttp t d m s) :
+    (handle reg beh mro rs r).map body = some (some errBody) := by
+  simp [handle, hf, hb, reset, composeError, body]
+
+theorem draft_status_body_is_status_text (reg : Reg) (beh : Handler → Beh) (mro : List Cls) (rs : Nat) (r : Resp)
+    (h : Handler) (t d m : Option Nat) (s : Nat) (hf : find reg mro = some h) (hb : beh h = .draftRaisesStatus t d m s) :
+    (handle reg beh mro rs r).map body = some (some statusText) := by
+  simp [handle, hf, hb, reset, composeStatus, body]
+
+/-- regression witness: on the pinned code the handler's draft text (token 1) was sent as the body of the error response -/
+theorem draft_leaks_pinned_witness :
+    (handlePinned [(1, 7)] (fun _ => .draftRaisesHttp (some 1) none none 410) [1] 0 ⟨200, none, none, none⟩).map body = some (some 1)
+    ∧ (handle [(1, 7)] (fun _ => .draftRaisesHttp (some 1) none none 410) [1] 0 ⟨200, none, none, none⟩).map body = some (some errBody) := by
+  decide
+
+end Eh
